@@ -107,18 +107,14 @@ example : sinkBytes (run (cleanWorld auxCfg) (Rewriter.new (cleanWorld auxCfg) (
   rw [← Full_real_eq_clean_run_of_no_handler auxCfg {} sampleChunks (by decide +kernel)]
   decide +kernel
 
-/-! ### the unconditional statement (G3) — open -/
+/-! ### the unconditional statement (G3) -/
 
-/-- **Full statement**: the real run IS the cleaned run, every configuration, settings record, chunking. NOT proved: what is
-proved is `Full_real_eq_clean_run` (= this, or `InternalAltRun`). The alternative is excluded by the dispatcher's protocol
-(`pending_element_aux_info_req` ⇒ the controller has a pending request, part of `InvY.auxPend`); `rel_of_unaryY`
-(Thm/Full14.lean) shows the real and the cleaned OPERATION equal from every `InvY` state, failures included, with `InvY`
-again after a success only. The missing piece is generic: a lifting through `Parser::parse` of
-"`ops₁ k = ops₂ k` from every `J` state; `J` again after success" to "`parse env₁ p = parse env₂ p`; `J` again after success",
-for both directives. Neither `RelE.parse_relE` (its abort alternative only records the ERROR of the first run, not that the
-second run fails identically) nor `Cong.parse_cong` (`Stop` is a predicate on the first machine's result only) yields it; it
-needs a copy of Lemmas/ParseRelE.lean whose result relation is "`r₁ = r₂`, and `MR` unless an error is signalled" (the lexer
-half of exactly this is Lemmas/LexOnlyE.lean, `HRes`). -/
+/-- **Full statement**: the real run IS the cleaned run, every configuration, settings record, chunking. PROVED in
+Thm/Full21.lean (`Full_real_eq_clean`), by a different route than the simulation of this file: the alternative of
+`Full_real_eq_clean_run` is excluded by the dispatcher's protocol (`pending_element_aux_info_req` ⇒ the controller has a
+pending request, part of `InvY.auxPend`), which needs the dispatcher-level invariant `InvY` and the lifting
+`RelQ.parse_eq_of_agree` (Lemmas/ParseRelQ.lean) of "the operations agree on every state with the invariant; the invariant
+holds again after a success" through `Parser::parse` for both directives. Here: the reduction `Full_real_eq_clean_partial`. -/
 def Full_real_eq_clean_statement : Prop :=
   ∀ (cfg : Cfg) (settings : Settings) (chunks : List Bytes),
     run (genWorld cfg) (Rewriter.new (genWorld cfg) (FullSt.init cfg) settings) chunks =
